@@ -73,8 +73,10 @@ def generate(template_path, repo, out_name):
         if kind == 'extract':
             t = tomllib.loads(arg)
             try:
-                return do_extract(t)
+                return t.get('prefix', '') + do_extract(t)
             except X.ExtractionBroken as ex:
+                if t.get('optional') and 'matched 0 definitions' in str(ex):
+                    return '/* optional function %s not present in this tree */' % t['head']
                 g.broken.append(str(ex))
                 return '\n#error extraction broke: %s\n' % str(ex).replace('\n', ' ').replace('\\', '/')
         if kind == 'include':
@@ -107,6 +109,15 @@ def generate(template_path, repo, out_name):
             line += text.count('\n', 0, a)
             dropped.append('text outside slice [%s .. %s)' % (t.get('slice_from', 'body start'), t.get('slice_to', 'body end')))
             text = '{' + text[a:b] + '}'
+        if 'this_members' in t:
+            # member names -> this->name (instead of member macros), from the real class declaration
+            tm = t['this_members']
+            names = [n for _, n in L.members(src(tm['file']), tm['class'])]
+            cnt = 0
+            for n in names:
+                text, k = re.subn(r'(?<![\w.])(?<!->)%s\b(?!\s*\()' % re.escape(n), 'this->' + n, text)
+                cnt += k
+            log.append({'rule': 'members of %s -> this->member' % tm['class'], 'fired': cnt, 'must': '*'})
         if t.get('init_list'):
             # constructor initialiser list `: a(x), b(y)` lowered to assignments in declaration order
             text = lower_init_list(head, text, t, log)
@@ -154,6 +165,14 @@ def generate(template_path, repo, out_name):
             stmts.append((mm.group(1), il[mm.end():close].strip()))
             i = close + 1
         log.append({'rule': 'init-list -> assignments', 'fired': len(stmts), 'must': '1+'})
+        if 'init_order' in t:
+            # C++ initialises members in declaration order, whatever the order of the list
+            io = t['init_order']
+            decl = [n for _, n in L.members(src(io['file']), io['class'])]
+            for name, _ in stmts:
+                if name not in decl:
+                    raise X.ExtractionBroken('init_list: %s is not a member of %s' % (name, io['class']))
+            stmts.sort(key=lambda st: decl.index(st[0]))
         pat = t['init_list']  # e.g. "{name} = {args};" or per-member templates
         out = []
         for name, args in stmts:
